@@ -27,7 +27,7 @@ RULE = ('Two-endpoint histories as in C01 with user terminate() / close() calls 
 SHRINK_KEYS = ('ops',)
 ASSUMPTIONS = [
     'liveness is checked as quiescence of a fair drain within 6000 rounds (virtual loop), not as unbounded liveness',
-    'keepalive/idle timers off (C14 owns them); no TLS',
+    'keepalive/idle timers off (C14 owns them) except in the hung-peer agent cases; some histories run over the scripted TLS socket',
     'a terminate() call that the endpoint refuses with an error reply counts as declined, not as a request',
 ]
 EXHAUSTIVE_PART = 'one terminate() per side at every scheduler step index of the fixed base scenarios; shutdown()/stop() over every combination of contact state x role for up to 2 (quick) / 3 (thorough) contacts'
